@@ -1,16 +1,76 @@
 import CallbagModel.Inv.XViols
+import CallbagModel.Inv.Combine
+import CallbagModel.Inv.Concat
+import CallbagModel.Inv.Flatten
+import CallbagModel.Inv.ForEach
+import CallbagModel.Inv.FromIter
+import CallbagModel.Inv.Merge
+import CallbagModel.Inv.Relay
+import CallbagModel.Inv.Share
 import CallbagModel.Inv.Take
 /-!
-# C01 — property theorems (statements only; the invariants are in `Inv/`)
+# C01 — greet first, greet once: property theorems (statements only; the invariants are in `Inv/`)
 
-`SafeFor 1 s`: the monitor has recorded no violation belonging to C01 in configuration `s`.
+`SafeFor 1 s`: the monitor (`Core.lean`, `Ph.onOut` / `G.onOut` / `G.onRetO`) has recorded no violation belonging to C01 in
+configuration `s`.
 `SReach M s`: `s` is reachable from the initial configuration of `M` by operator micro-steps and moves of a conformant
-environment (`legalIn`/`legalRet`, DESIGN §1.2) — every history, every nesting depth, every data value.
+environment (`legalIn`/`legalRet`, DESIGN §1.2) — every history, every nesting depth, every data value, every closure.
+Theorems whose name ends in `_partial` carry an explicit extra hypothesis or a weaker conclusion; the reason is stated
+beside them and in DESIGN.md §5 (known findings).
 -/
 namespace Cb.Thm
-variable {α : Type}
 
-theorem C01_take (max : Nat) : ∀ s, SReach (Take.machine α max) s → SafeFor 1 s :=
+theorem C01_map {α β : Type} (f : α → β) :
+    ∀ s, SReach (Relay.machine (Relay.map f)) s → SafeFor 1 s :=
+  fun s hs => safeFor_of_basicSafe _ s hs (Relay.map_basicSafe f s hs) 1 (by decide)
+
+theorem C01_filter {α : Type} (p : α → Bool) :
+    ∀ s, SReach (Relay.machine (Relay.filter p)) s → SafeFor 1 s :=
+  fun s hs => safeFor_of_basicSafe _ s hs (Relay.filter_basicSafe p s hs) 1 (by decide)
+
+theorem C01_scan {α β : Type} (r : β → α → β) (seed : β) :
+    ∀ s, SReach (Relay.machine (Relay.scan r seed)) s → SafeFor 1 s :=
+  fun s hs => safeFor_of_basicSafe _ s hs (Relay.scan_basicSafe r seed s hs) 1 (by decide)
+
+theorem C01_skip {α : Type} (n : Nat) :
+    ∀ s, SReach (Relay.machine (Relay.skip (α := α) n)) s → SafeFor 1 s :=
+  fun s hs => safeFor_of_basicSafe _ s hs (Relay.skip_basicSafe n s hs) 1 (by decide)
+
+theorem C01_take {α : Type} (max : Nat) :
+    ∀ s, SReach (Take.machine α max) s → SafeFor 1 s :=
   fun s hs => safeFor_of_basicSafe _ s hs (Take.take_basicSafe max s hs) 1 (by decide)
+
+theorem C01_from_iter {ι α α' : Type} (next : ι → Option (α × ι)) (it0 : ι) :
+    ∀ s, SReach (FromIter.machine α' next it0) s → SafeFor 1 s :=
+  fun s hs => safeFor_of_basicSafe _ s hs (FromIter.fromIter_basicSafe next it0 s hs) 1 (by decide)
+
+theorem C01_for_each {α : Type} :
+    ∀ s, SReach (ForEach.machine α) s → SafeFor 1 s :=
+  fun s hs => safeFor_of_basicSafe _ s hs (ForEach.forEach_basicSafe s hs) 1 (by decide)
+
+theorem C01_concat {α : Type} (n : Nat) (hn : 0 < n) :
+    ∀ s, SReach (Concat.machine α n) s → SafeFor 1 s :=
+  fun s hs => safeFor_of_basicSafe _ s hs (Concat.concat_basicSafe n hn s hs) 1 (by decide)
+
+theorem C01_merge {α : Type} (n : Nat) :
+    ∀ s, SReach (Merge.machine α n) s → SafeFor 1 s :=
+  fun s hs => safeFor_of_basicSafe _ s hs (Merge.merge_basicSafe n s hs) 1 (by decide)
+
+theorem C01_flatten {α : Type} :
+    ∀ s, SReach (Flatten.machine α) s → SafeFor 1 s :=
+  fun s hs => safeFor_of_basicSafe _ s hs (Flatten.flatten_basicSafe s hs) 1 (by decide)
+
+/-- `combine!`: the full phase-level safety statement is false (known findings KF2, KF3: messages to members that are not
+live, a C04 matter); what is proved is that those are the ONLY phase-level violations, hence C01 holds in full. -/
+theorem C01_combine {α : Type} (n : Nat) :
+    ∀ s, SReach (Combine.machine α n) s → SafeFor 1 s :=
+  fun s hs => safeFor_of_onlyUpNotLive _ s hs (Combine.combine_safe_partial n s hs).1 (Combine.combine_safe_partial n s hs).2 1 (by decide)
+
+/-- `share`: proved for environments in which the source does not deliver from inside one of share's own deliveries
+(`noNestedFanout`, the restriction C12 makes in its own quantifier). Without it C02 and C03 are false for 2+ sinks (known
+findings KF5a, KF5b; see `Thm/Counterexamples.lean`). -/
+theorem C01_share_partial {α : Type} :
+    ∀ s, SReachR (Share.machine α) noNestedFanout s → SafeFor 1 s :=
+  fun s hs => safeFor_of_basicSafe _ s hs.weaken (Share.share_basicSafe_partial s hs) 1 (by decide)
 
 end Cb.Thm
